@@ -285,9 +285,9 @@ func (idx *HNSWIndex) Add(vector VectorNode) error {
 		return nil
 	}
 
-	// Insert into graph
-	idx.insertNode(node)
+	// Insert into graph (registered first: pruning a neighbour's list must be able to see the new node)
 	idx.nodes[id] = node
+	idx.insertNode(node)
 
 	idx.mu.Unlock()
 	return nil
